@@ -203,9 +203,14 @@ fn parked(name: String, params: Value) -> Scenario {
         sys.events.push(format!("PresetCounters(packet_id={}, sub_id={})", pid0, sub0));
         // created now, polled later
         sys.apply(Ev::StartHeld(first));
-        // "65535 operations later": the counters stand where they stood
-        sys.w.handle().verif_set_ids(pid0, sub0);
-        sys.events.push(format!("PresetCounters(packet_id={}, sub_id={})  [one lap later]", pid0, sub0));
+        // "65535 operations later": the packet identifier counter stands where it stood. The
+        // subscription identifier counter does not: its space is 268 435 455 wide, a lap of packet
+        // identifiers moves it on by at most 65535 - rewinding it to a value that may already have
+        // been handed out (an implementation may draw it when subscribe() is called) would make the
+        // harness, not the library, assign it twice.
+        let sub1 = if sub0 > 200_000_000 { 40 } else { sub0 + 300 };
+        sys.w.handle().verif_set_ids(pid0, sub1);
+        sys.events.push(format!("PresetCounters(packet_id={}, sub_id={})  [one lap later]", pid0, sub1));
         sys.apply(Ev::Start(second));
         sys.apply(Ev::Release(crate::world::Tid::Op(0)));
         sys.apply(Ev::Start(OpSpec::Subscribe(SubscribeSpec::simple("s/b"))));
